@@ -842,7 +842,14 @@ impl<'a> Parser<'a> {
             });
         }
 
-        if iso_day > 7 {
+        if iso_week < 1 {
+            return Err(ParseError {
+                index: self.idx,
+                message: "Invalid ISO date: week 0 is invalid".to_string(),
+            });
+        }
+
+        if iso_day < 1 || iso_day > 7 {
             return Err(ParseError {
                 index: self.idx,
                 message: "Invalid ISO date: week day is invalid".to_string(),
